@@ -1,6 +1,7 @@
-(* C16: par2/crc32.go crc32Window.update - against GoparGen.GoArithGen, re-translated from the Go source by tools/gotocoq on every run *)
+(* C16: par2/crc32.go crc32Window.update and newCRC32Window - against GoparGen.GoArithGen, re-translated from the Go source by tools/gotocoq on every run *)
 From Coq Require Import Lia ZifyN ZifyNat ZifyBool.
 From Gopar Require Import Model.Base Model.GF16 Model.GoSem Model.Parallel Model.CRC Model.CLI.
+From Gopar Require Import Model.GoSemList.
 From Gopar Require Import Proofs.GF16Facts Proofs.Poly64 Proofs.GF16Tables Proofs.CRCFacts.
 From GoparGen Require Import GoLinkCommon GoArithGen.
 Open Scope N_scope.
@@ -46,3 +47,105 @@ Proof.
 Qed.
 Print Assumptions GEN_crc32Window_update.
 
+
+(** * GL11: newCRC32Window
+
+   gen_newCRC32Window is the translation of the constructor; its parameter checksumIEEE (hash/crc32's
+   ChecksumIEEE, which the translator does not read) is instantiated with the model's crc32.  The theorem says
+   that, for EVERY window size n, the translated Go code returns exactly the window of Model/CRC.v's win_new
+   (the size and the 256-entry table crcOldLeaderMaskedTable), and panics exactly when win_new panics.
+
+   Go's int is Z in the translation (Model/GoSem.v): for n + 1 >= 2^63 the Go expression windowSize+1 wraps
+   and make panics, and for sizes beyond the address space make panics too; neither the translation nor
+   win_new models that, so the statement needs no upper bound on n - it is about the idealised int.
+
+   Proof: the only parts that depend on n are the test n < 4, make([]byte, n+1) and the bounds checks of
+   a[0], a[4].  With 4 <= n the slice is 0::0::0::0::0::tl; lset / lget (Model/GoSemList.v) recurse on the
+   list, so with tl and the checksum function as VARIABLES both sides are closed enough to be evaluated: the
+   three translated loops (8, 255 x 8 rounds) and the model's maps normalise to the same 256 expressions over
+   the unknown checksums.  Nothing below mentions the text of the generated body except the first two
+   statements (the test and the make). *)
+
+Theorem GEN_newCRC32Window_total : forall n : Z,
+  gen_newCRC32Window crc32 n =
+  match win_new n with
+  | Ok w => Ret (Z.of_nat (w_size w), w_table w)
+  | Err _ => Pnc
+  | Panic _ => Pnc
+  end.
+Proof.
+  intros n. unfold win_new.
+  destruct (Z.ltb n 4) eqn:Hlt.
+  - unfold gen_newCRC32Window. rewrite Hlt. reflexivity.
+  - assert (Hn : (4 <= n)%Z) by (apply Z.ltb_ge; exact Hlt).
+    assert (Hsz : Z.of_nat (Z.to_nat n) = n) by lia.
+    cbv zeta. cbn [w_size w_table]. rewrite Hsz.
+    set (m := (Z.to_nat n - 4)%nat).
+    assert (Hm : S (Z.to_nat n) = (5 + m)%nat) by lia.
+    unfold zeros. rewrite Hm.
+    unfold gen_newCRC32Window. rewrite Hlt.
+    cbv beta iota zeta delta [GoSem.seq].
+    rewrite mkzeros_nonneg by lia.
+    assert (Hm' : Z.to_nat (n + 1) = (5 + m)%nat) by lia.
+    rewrite Hm'. (* fails at once if the slice is not make([]byte, windowSize+1) *)
+    change (repeat 0 (5 + m)%nat) with (0 :: 0 :: 0 :: 0 :: 0 :: repeat 0 m).
+    generalize (repeat 0 m). intros tl.
+    generalize crc32. intros ck.
+    vm_compute. reflexivity.
+Qed.
+Print Assumptions GEN_newCRC32Window_total.
+
+Theorem GEN_newCRC32Window : forall n : Z, (4 <= n)%Z ->
+  exists w, win_new n = Ok w /\ w_size w = Z.to_nat n /\
+            gen_newCRC32Window crc32 n = Ret (n, w_table w).
+Proof.
+  intros n Hn. pose proof (GEN_newCRC32Window_total n) as H.
+  unfold win_new in *. destruct (Z.ltb_spec n 4) as [Hl|_]; [lia|].
+  eexists. split; [reflexivity|]. split; [reflexivity|].
+  rewrite H. cbn [w_size w_table]. rewrite Z2Nat.id by lia. reflexivity.
+Qed.
+Print Assumptions GEN_newCRC32Window.
+
+Theorem GEN_newCRC32Window_panics : forall n : Z, (n < 4)%Z ->
+  gen_newCRC32Window crc32 n = Pnc /\ win_new n = Panic PExplicit.
+Proof.
+  intros n Hn. pose proof (GEN_newCRC32Window_total n) as H.
+  unfold win_new in *. destruct (Z.ltb_spec n 4) as [_|Hl]; [|lia].
+  split; [exact H|reflexivity].
+Qed.
+Print Assumptions GEN_newCRC32Window_panics.
+
+(* Not vacuous, and tied to one run of the real code: for the window sizes 7 and 1000 the translated
+   constructor (by the theorem) and win_new give a 256-entry table whose entries 0, 1, 2, 255 - and, for 7,
+   a 32-bit rolling sum over all 256 entries - are the numbers that par2.newCRC32Window printed in a Go
+   test run of the pinned tree (recorded 2026-10-02; s = s*31 + table[i] + i in uint32). *)
+Definition table_sum (t : list N) : N :=
+  fold_left (fun s iv => (s * 31 + snd iv + N.of_nat (fst iv)) mod 2 ^ 32) (combine (List.seq 0 256) t) 0.
+
+Example GEN_newCRC32Window_ex :
+  (4 <= 7)%Z /\ (4 <= 1000)%Z /\
+  exists t7 t1000,
+    gen_newCRC32Window crc32 7 = Ret (7%Z, t7) /\
+    gen_newCRC32Window crc32 1000 = Ret (1000%Z, t1000) /\
+    win_new 7 = Ok {| w_size := 7; w_table := t7 |} /\
+    win_new 1000 = Ok {| w_size := 1000; w_table := t1000 |} /\
+    length t7 = 256%nat /\ length t1000 = 256%nat /\
+    map (fun i => nth i t7 0) [0; 1; 2; 255]%nat = [4165861399; 887357577; 3127576426; 3724871409] /\
+    table_sum t7 = 2249062528 /\
+    map (fun i => nth i t1000 0) [0; 1; 2; 255]%nat = [968323130; 3377035798; 54157859; 963269038].
+Proof.
+  split; [lia|]. split; [lia|].
+  destruct (GEN_newCRC32Window 7 ltac:(lia)) as (w7 & Hw7 & Hs7 & Hg7).
+  destruct (GEN_newCRC32Window 1000 ltac:(lia)) as (w1000 & Hw1000 & Hs1000 & Hg1000).
+  exists (w_table w7), (w_table w1000).
+  split; [exact Hg7|]. split; [exact Hg1000|].
+  assert (E7 : win_new 7 = Ok {| w_size := 7; w_table := w_table w7 |}).
+  { rewrite Hw7. destruct w7 as [s t]. cbn [w_size w_table] in *. rewrite Hs7. reflexivity. }
+  assert (E1000 : win_new 1000 = Ok {| w_size := 1000; w_table := w_table w1000 |}).
+  { rewrite Hw1000. destruct w1000 as [s t]. cbn [w_size w_table] in *. rewrite Hs1000. reflexivity. }
+  split; [exact E7|]. split; [exact E1000|].
+  assert (V7 : w_table w7 = match win_new 7 with Ok w => w_table w | _ => [] end) by (rewrite Hw7; reflexivity).
+  assert (V1000 : w_table w1000 = match win_new 1000 with Ok w => w_table w | _ => [] end) by (rewrite Hw1000; reflexivity).
+  rewrite V7, V1000.
+  repeat split; vm_compute; reflexivity.
+Qed.
